@@ -287,9 +287,9 @@ Import model.DfxpWriteDoc model.XmlRead spec.SpecXmlDocT proofs.DfxpWriteDocFact
 Open Scope Z_scope.
 
 (* the written document is a well-formed rendering of an abstract document (hence parses: C01_dfxp_text_to_tree) *)
-Theorem C02_dfxp_document_wellformed : forall lang cs, forallb wcap_ok cs = true -> xdoc_ok (wdoc lang cs) = true.
+Theorem C02_dfxp_document_wellformed_unfold : forall lang cs, forallb wcap_ok cs = true -> xdoc_ok (wdoc lang cs) = true.
 Proof. exact wdoc_ok. Qed.
-Print Assumptions C02_dfxp_document_wellformed.
+Print Assumptions C02_dfxp_document_wellformed_unfold.
 
 (* its begin / end attributes are the tokens of the C02 writer model (the shared formatter), followed by region / style *)
 Theorem C02_dfxp_document_tokens : forall c : wcap, 0 <= fst (fst c) < day -> 0 <= snd (fst c) < day ->
